@@ -14,8 +14,11 @@ LEVEL_TEXT = ("Theorems (Lean 4, any linearly ordered field, every callback scri
               "Source raises ValueError before any callback; a solve that did not converge raises RuntimeError instead of being "
               "handed on. The model is tied to the code on every run by replaying each batt_life() call "
               "(returned DataFrame, callback argument stream, exception class, Source row afterwards) through the compiled model.")
-LEVEL_NOTE = ("Proof covers the loop for an arbitrary solver function; that the current handed to the callback is the steady "
-              "state of the real solver is checked by the oracle against an independent public solve() of a fresh copy. "
+LEVEL_NOTE = ("Proof covers the loop for an arbitrary solver function AND (Props/C18Solve) its instantiation by the model's own solver: the current handed to "
+              "the k-th depletion call is the Source's current in a CONVERGED state (never an intermediate iterate) of the system with the Source set to the probed "
+              "(vo, rs) (`batt_current_is_solved`), it is the Source row's Iout and within itol of its children's current sum (`batt_current_source_law`), a "
+              "non-converged or raising solve escapes without a depletion call, and restoring (vo, rs) gives the original system back (`withSource_restore_after`). "
+              "On the implementation it is checked by the oracle against an independent public solve() of a fresh copy. "
               "Regression streams keep the witnesses of the repaired findings F29 (empty name accepted) and F30 "
               "(non-converged current handed on).")
 MODULE = "SysLoss.Props.C18"
@@ -30,7 +33,14 @@ THEOREMS = [
     "SysLoss.C18.time_strict_nophases",
     "SysLoss.C18.not_a_source",
     "SysLoss.C18.unconverged_raises",
-]
+] + ["SysLoss.C18." + t for t in (
+    # Props/C18Solve: the abstract solver parameter instantiated by the model's own solver on the system with the Source set to the probed (vo, rs)
+    "withSource_other_nodes", "withSource_src_node", "withSource_src_none", "withSource_twice", "withSource_restore", "withSource_restore_after",
+    "solveIOf_ok", "solveIOf_error", "solveRaw_converged", "batt_current_is_solved", "batt_current_is_solved_of_maxiter", "maxiter_hypothesis_needed",
+    "batt_unconverged_raises", "batt_solver_error_raises", "batt_current_source_law", "batt_current_source_law_of_maxiter", "source_flag_returned",
+    "source_curr_is_spec", "loop_invariant", "source_row_current_law_noflag", "noMuxChild_withSource", "loop_exhausts", "uNonconv",
+    "not_convergedAt_of_stepsTo", "dCalls")]
+MODULES = ["SysLoss.Props.C18", "SysLoss.Props.C18Solve"]
 # C17 clause 3 is proved about the same model in lean/SysLoss/Props/C17Batt.lean; to be listed by the C17 check:
 C17_MODULE = "SysLoss.Props.C17Batt"
 C17_THEOREMS = [
